@@ -44,10 +44,14 @@ def _canon_order(raw):
   return {k: raw[k] for k in sorted(raw)}
 
 
-def check_padded_stream(batches, sizes, bs, buckets, seed=0):
+def check_padded_stream(batches, sizes, bs, buckets, seed=0, order=None):
+  """order: client indices in the order in which the source yields them (default: index order)."""
   total = sum(sizes)
   off = 1 + seed % 7
   want = list(range(off, off + total))
+  if order is not None:
+    starts = [off + sum(sizes[:k]) for k in range(len(sizes))]
+    want = [v for k in order for v in range(starts[k], starts[k] + sizes[k])]
   m = len(batches)
   reals = []
   for k, b in enumerate(batches):
@@ -116,13 +120,30 @@ def padded_fd(case):
   sizes, bs, buckets = case['sizes'], case['B'], case['buckets']
   seed = case.get('seed', 0)
   dss = make_datasets(sizes, None, seed)
-  ids = [b'c%02d' % k if k % 2 else b'c%02d\x00' % k for k in range(len(sizes))]
+  ids = [b'c%03d' % k if k % 2 else b'c%03d\x00' % k for k in range(len(sizes))]
   mapping = {cid: _canon_order(d.raw_examples) for cid, d in reversed(list(zip(ids, dss)))}
-  fd = fedjax.InMemoryFederatedData(mapping).preprocess_batch(lambda x: {**x, 'z': x['i'] * 2 + 1})
-  out = check_padded_stream(list(fedjax.padded_batch_federated_data(fd, batch_size=bs,
-                                                                   num_batch_size_buckets=buckets)),
-                            sizes, bs, buckets, seed)
-  return {'outcome': out, 'nontrivial': 0 in sizes or any(s % bs for s in sizes)}
+  fd = fedjax.InMemoryFederatedData(mapping)
+  tmp = None
+  if case.get('impl') in ('sql', 'sub'):
+    from fedjax.core import sqlite_federated_data as sq, federated_data as fdm
+    tmp = tempfile.mkdtemp(prefix='c15p_')
+    path = os.path.join(tmp, 'fd.sqlite')
+    with sq.SQLiteFederatedDataBuilder(path) as b:
+      b.add_many([(cid, mapping[cid]) for cid in reversed(ids)])   # insertion order = reverse id order
+    fd = sq.SQLiteFederatedData.new(path)
+    if case['impl'] == 'sub':
+      fd = fdm.SubsetFederatedData(fd, ids)
+  fd = fd.preprocess_batch(lambda x: {**x, 'z': x['i'] * 2 + 1})
+  try:
+    # the SQLite-backed dataset iterates in insertion order (here: reverse id order), the in-memory one in id order
+    order = list(range(len(sizes)))[::-1] if case.get('impl') == 'sql' else None   # a Subset iterates in sorted id order
+    out = check_padded_stream(list(fedjax.padded_batch_federated_data(fd, batch_size=bs,
+                                                                     num_batch_size_buckets=buckets)),
+                              sizes, bs, buckets, seed, order)
+  finally:
+    if tmp:
+      shutil.rmtree(tmp, ignore_errors=True)
+  return {'outcome': out if len(sizes) < 20 else [len(out[0])], 'nontrivial': 0 in sizes or any(s % bs for s in sizes)}
 
 
 def mismatch(case):
@@ -248,7 +269,7 @@ def shuf_batch(case):
 def _three_fds(sizes, tmp):
   import fedjax
   from fedjax.core import sqlite_federated_data as sq, federated_data as fdm
-  ids = [b'c%02d' % k if k % 2 else b'c%02d\x00' % k for k in range(len(sizes))]
+  ids = [b'c%03d' % k if k % 2 else b'c%03d\x00' % k for k in range(len(sizes))]
   dss = make_datasets(sizes, None)
   mapping = {cid: _canon_order(d.raw_examples) for cid, d in zip(ids, dss)}
   path = os.path.join(tmp, 'fd.sqlite')
@@ -485,6 +506,7 @@ def plan(ctx):
   (ctx.pmap('padded_cds', cases, chunk=400) if th else ctx.run('padded_cds', cases, reverse_pass=True))
   ctx.pmap('other_process', [{'sizes': sz, 'seed': sd, 'hashseeds': [hs]} for sz, sd in (([2, 0, 3, 1, 4], 0), ([1, 1, 1, 2], 5))
                              for hs in ((1, 2, 3, 12345) if th else (1, 2))], chunk=1)
+  ctx.run('padded_fd', [{'sizes': [1, 0, 2] * 43, 'B': 4, 'buckets': 2, 'seed': ctx.seed, 'impl': impl} for impl in ('mem', 'sql', 'sub')])
   ctx.run('padded_fd', [{'sizes': s, 'B': b, 'buckets': k, 'seed': ctx.seed}
                         for s in size_seqs(alpha if th else [0, 1, 2, 4, 5], 3) for b in (1, 2, 3, 4)
                         for k in ((1, 3) if b > 1 else (1,))])
@@ -512,7 +534,9 @@ def plan(ctx):
   (ctx.pmap('shuf_batch', sb, chunk=16) if th else ctx.run('shuf_batch', sb))
   ctx.run('shuffled_clients', [{'sizes': s, 'buffer': b, 'seed': sd}
                                for s in ([1], [2, 0], [1, 2, 3], [0, 1, 2, 3, 1]) for b in (1, 2, 3, 10)
-                               for sd in ((0, 1, 5) if th else (0, 5))])
+                               for sd in ((0, 1, 5) if th else (0, 5))] +
+          # many clients (more than any page / prefetch size an implementation may use), inserted in reverse id order
+          [{'sizes': [1, 0, 2] * n3, 'buffer': b, 'seed': 0} for n3 in ((22, 43, 70) if th else (22, 43)) for b in (1, 7, 500)])
   ctx.run('srb_fd', [{'sizes': s, 'B': b, 'cbuf': cb, 'ebuf': eb, 'seed': sd}
                      for s in ([3], [1, 2], [0, 4, 1], [2, 3, 1, 0]) for b in (1, 2, 3, 5) for cb in (1, 2, 10)
                      for eb in (1, 3, 100) for sd in ((0, 1, 2) if th else (0,))])
